@@ -8,11 +8,8 @@ import (
 	"github.com/nginx/nginx-gateway-fabric/internal/mode/static/state/dataplane"
 )
 
-// VerifC16PEM runs generatePEM and returns (path, content).
-func VerifC16PEM(id string, cert, key []byte) (string, []byte) {
-	f := generatePEM(dataplane.SSLKeyPairID(id), cert, key)
-	return f.Path, f.Content
-}
+// (The PEM files are exercised through the exported Generate — see harness/c16/loop.go — so that a change of the
+// unexported generatePEM signature cannot keep the harness from building.)
 
 // VerifC16ProxyTLS runs createProxyTLSFromBackends + generateProtocolString:
 // (has verify, trusted certificate, name, protocol).
